@@ -51,12 +51,14 @@ Fixpoint mm_balance (l : list ev) : Z :=
   | _ :: r => mm_balance r
   end.
 
-(* struct MmapRegionBuilder (unix.rs:56-64); file_offset = Some start of the one file of the request *)
-Record req := { q_size : N; q_prot : N; q_flags : N; q_file : option N; q_raw : option N }.
+(* struct MmapRegionBuilder (unix.rs:56-64); file_offset = Some start of the one file of the request;
+   q_huge = the `hugetlbfs` hint (with_hugetlbfs :111-114): a label handed on to the region, never looked at *)
+Record req := { q_size : N; q_prot : N; q_flags : N; q_file : option N; q_raw : option N;
+                q_huge : option bool }.
 (* struct MmapRegion (unix.rs:223-232); g_addr = Some a for an externally supplied pointer,
    None for an address chosen by the kernel *)
 Record region := { g_addr : option N; g_size : N; g_prot : N; g_flags : N; g_file : option N;
-                   g_owned : bool }.
+                   g_owned : bool; g_huge : option bool (* is_hugetlbfs() :385-387 *) }.
 
 (* mod.rs:81-101
      if let Some(end) = start.checked_add(size as u64) {
@@ -80,10 +82,12 @@ Definition build_raw (m : mode) (o : os) (q : req) : outcome (res region * list 
       let* mask := psub m 196 (os_page o) 1 in                                 (* :196 page_size - 1 *)
       if negb (N.land addr mask =? 0) then Val (Err InvalidPointer, [])        (* :196-198 *)
       else Val (Ok {| g_addr := Some addr; g_size := q_size q; g_prot := q_prot q;
-                      g_flags := q_flags q; g_file := q_file q; g_owned := false |}, [])
+                      g_flags := q_flags q; g_file := q_file q; g_owned := false;
+                      g_huge := q_huge q (* :208 *) |}, [])
   end.
 
-(* unix.rs:128-187 *)
+(* unix.rs:128-187.  The hugetlbfs hint takes no part in any decision: in particular check_file_offset
+   (:140) runs for EVERY request with a file, whatever the hint says. *)
 Definition build (m : mode) (o : os) (q : req) : outcome (res region * list ev) :=
   match q_raw q with
   | Some _ => build_raw m o q                                                  (* :129-131 *)
@@ -101,7 +105,8 @@ Definition build (m : mode) (o : os) (q : req) : outcome (res region * list ev) 
             let e := EvMmap (q_size q) (q_prot q) (q_flags q) hasf offset (os_mmap_ok o) in  (* :150-159 *)
             if os_mmap_ok o
             then Val (Ok {| g_addr := None; g_size := q_size q; g_prot := q_prot q;
-                            g_flags := q_flags q; g_file := q_file q; g_owned := true |},
+                            g_flags := q_flags q; g_file := q_file q; g_owned := true;
+                            g_huge := q_huge q (* :185 *) |},
                       l1 ++ [e])                                               (* :177-186 *)
             else Val (Err MmapErr, l1 ++ [e])                                  (* :162-164 *)
         end
@@ -114,14 +119,15 @@ Definition drop_region (g : region) : list ev := if g_owned g then [EvMunmap (g_
 Definition mr_new (m : mode) (o : os) (size : N) :=
   build m o {| q_size := size; q_prot := N.lor PROT_READ PROT_WRITE;
                q_flags := N.lor (N.lor MAP_ANONYMOUS MAP_NORESERVE) MAP_PRIVATE;
-               q_file := None; q_raw := None |}.
+               q_file := None; q_raw := None; q_huge := None |}.
 Definition mr_from_file (m : mode) (o : os) (start size : N) :=
   build m o {| q_size := size; q_prot := N.lor PROT_READ PROT_WRITE;
-               q_flags := N.lor MAP_NORESERVE MAP_SHARED; q_file := Some start; q_raw := None |}.
+               q_flags := N.lor MAP_NORESERVE MAP_SHARED; q_file := Some start; q_raw := None; q_huge := None |}.
 Definition mr_build (m : mode) (o : os) (file : option N) (size prot flags : N) :=
-  build m o {| q_size := size; q_prot := prot; q_flags := flags; q_file := file; q_raw := None |}.
+  build m o {| q_size := size; q_prot := prot; q_flags := flags; q_file := file; q_raw := None; q_huge := None |}.
 Definition mr_build_raw (m : mode) (o : os) (addr size prot flags : N) :=
-  build m o {| q_size := size; q_prot := prot; q_flags := flags; q_file := None; q_raw := Some addr |}.
+  build m o {| q_size := size; q_prot := prot; q_flags := flags; q_file := None; q_raw := Some addr;
+               q_huge := None |}.
 
 (* mod.rs:124-133  GuestRegionMmap::new(mapping, guest_base); on Err the mapping is dropped *)
 Definition guest_region_new (g : region) (base : N) : res (region * N) * list ev :=
